@@ -4,10 +4,10 @@ the right surfaces.
 Theorems: coq/Properties/C16.v.  Ties (correspondence by execution):
   run      : whole conversion of a generated deck (0-4 flagged surfaces,
              duplicates of flagged surfaces in several spellings, macrobodies,
-             cones, with and without --skip-deduplication /
-             --skip-boundary-conditions): exception class, or the (id, class)
-             of every SURF line and the (kind, id) of every ALL_COMPLETE line
-             vs  Model.run
+             cones, cells with TRCL translations incl. importance-0 ones, with
+             and without --skip-deduplication / --skip-boundary-conditions):
+             exception class, or the (id, class) of every SURF line and the
+             (kind, id) of every ALL_COMPLETE line  vs  Model.run_t
   split    : MIP.geom.surfaces.re_name on flag/number strings vs split_flags
   kinds    : CConversionBoundaryCondition.conversionBoundCond on synthetic
              dictionaries (incl. flags that are neither * nor +) vs conv_kinds
@@ -40,16 +40,24 @@ THEOREMS = ['C16_split_flags_star', 'C16_split_flags_plus',
             'C16_bc_designates_present_same_locus',
             'C16_written_surfaces_exact',
             'C16_bc_dedup_refuted', 'C16_bc_unused_refuted',
-            'C16_bc_stale_kind_quirk']
+            'C16_bc_stale_kind_quirk',
+            'C16_run_t_plain', 'C16_expanded_table',
+            'C16_bc_designates_present_same_locus_trcl',
+            'C16_trcl_copy_has_entry', 'C16_unflagged_deck_no_entries',
+            'C16_macrobody_flag_stops_run_t',
+            'C16_bc_trcl_original_refuted', 'C16_bc_trcl_copy_dedup_refuted']
 TRUSTED = [
     'hand-written model coq/C16/Model.v (modelled, tied by execution only)',
     'surfaces are abstract in the model: a descriptor class stands for '
     'SurfaceT4.__eq__ (type, parameters, transform); the harness assigns the '
     'classes from a hand-written table of canonical TRIPOLI-4 forms and the '
     'tie compares them with the written SURF lines',
-    'cells of the model are intersections of signed single-part surfaces; '
-    'unions, complements, TRCL/FILL copies and multi-part surfaces referenced '
-    'by cells are covered by the oracle sweep only',
+    'cells of the model are intersections of signed single-part surfaces, '
+    'optionally with a TRCL (the descriptor class of each transformed copy is '
+    'supplied by the harness from the translated canonical form: only '
+    'translations are generated in the tie stream); unions, complements, '
+    'FILL copies, TR on surface cards and multi-part surfaces referenced by '
+    'cells are covered by the oracle sweep only',
     'the union helper planes (two PLANEX ids above every other id) are not in '
     'the model: intersection-only cells never use them and they can never be '
     'the smallest of a duplicate group',
@@ -848,7 +856,10 @@ def run(res, tier, seed, proofs_ok):
                 'classes in 36 spellings, 0-4 flagged * or +, duplicates of '
                 'flagged surfaces (smaller and larger numbers, same or other '
                 'spelling, flagged or not), optional macrobody / one-sheet '
-                'cone, 1-4 cells that are intersections, with and without '
+                'cone, 1-4 cells that are intersections, 35 % of the decks with '
+                'TRCL translations (4 shifts, two of them moving a pool '
+                'surface onto another one, one the identity) on about half of '
+                'their cells incl. the importance-0 cell, with and without '
                 '--skip-deduplication and --skip-boundary-conditions; '
                 'malformed stream: flagged macrobody, flags **,*+,..., '
                 'repeated surface number, missing surface, no converted cell, '
